@@ -100,6 +100,7 @@ func runC17(c *Ctx, r *Report) {
 	c17EndOfStreamCloses(c, r)
 	c17Buffered(c, r)
 	c17ReadErrors(c, r)
+	c17ExitMessages(c, r)
 }
 
 // ---- R17.1 -----------------------------------------------------------------
@@ -1613,4 +1614,54 @@ func closureCalledOnlyOnErrorPaths(fn *ssa.Function) bool {
 		}
 	}
 	return calls > 0
+}
+
+// ---- R17.9 -----------------------------------------------------------------
+// A diagnostic that accompanies a non-zero exit goes to stderr, not into the
+// data stream.
+func c17ExitMessages(c *Ctx, r *Report) {
+	r.Rule("R17.9", "the message next to a failure exit goes to stderr: a basic block that builds a lib.ExitRequest with a non-zero constant code, or calls os.Exit with a non-zero constant, contains no write to stdout (fmt.Print*, fmt.Fprint*(os.Stdout, …))")
+	n := 0
+	for _, fn := range c.ModuleFunctions() {
+		for _, b := range fn.Blocks {
+			failing := false
+			var stdout ssa.Instruction
+			for _, in := range b.Instrs {
+				switch x := in.(type) {
+				case *ssa.Store:
+					// &lib.ExitRequest{Code: k}
+					if fa, ok := x.Addr.(*ssa.FieldAddr); ok {
+						if pt, ok := fa.X.Type().Underlying().(*types.Pointer); ok {
+							if nm, ok := pt.Elem().(*types.Named); ok && nm.Obj().Name() == "ExitRequest" {
+								if k, ok := constInt(x.Val); ok && k != 0 {
+									failing = true
+								}
+							}
+						}
+					}
+				case ssa.CallInstruction:
+					com := x.Common()
+					if CalleeName(com) == "os.Exit" {
+						if k, ok := constInt(com.Args[0]); ok && k != 0 {
+							failing = true
+						}
+					}
+					if callWritesStdout(com) && stdout == nil {
+						stdout = in
+					}
+				}
+			}
+			if !failing {
+				continue
+			}
+			n++
+			key := fmt.Sprintf("%s: failure exit #%d", SSAName(fn), n)
+			if stdout != nil {
+				r.Fail("R17.9", key, c.Rel(stdout.Pos()), SSAName(fn)+" writes a message to stdout in the same step in which it requests a non-zero exit: the diagnostic lands in the data stream (and is lost with 2>/dev/null reversed), not on stderr")
+			} else {
+				r.OK("R17.9", key, c.Rel(b.Instrs[0].Pos()), "no stdout write next to the failure exit")
+			}
+		}
+	}
+	r.Floor("R17.9", "failure-exit blocks", n, 20)
 }
